@@ -198,6 +198,12 @@ func genFailing(r *core.Rand, h *gen.Hist, cause string) *failStmt {
 		}
 		fs.st = &proto.Stmt{Kind: "create", Table: strings.Repeat("n", r.Range(200, 240)), Defs: defs}
 		fs.k, fs.n = bad+1, nd
+		if r.Chance(1, 3) {
+			// no columns at all: the only catalog row is the one that maps
+			// the name to a page, and the name alone is too long for it
+			fs.st = &proto.Stmt{Kind: "create", Table: strings.Repeat("n", r.Range(387, 460))}
+			fs.k, fs.n = 1, 1
+		}
 	case "create-length-out-of-range":
 		name := fmt.Sprintf("fresh%d", r.Intn(1000))
 		// the column with the out-of-range length at any position, among
